@@ -90,7 +90,15 @@ Geo genAnchor(vf::Ctx & c)
 Geo genGeoNear(vf::Ctx & c, const Geo & ctr)
 {
   Geo g;
-  double dn = c.s.r("d_north", -7.0e4, 7.0e4), de = c.s.r("d_east", -7.0e4, 7.0e4), dh = c.s.r("d_up", -9000.0, 9000.0);
+  double dn, de, dh;
+  if (c.s.pick("d_scale", {3, 2}) == 1) {
+    double rad = c.s.rlog("d_radius", 1e-3, 1e3), bearing = c.s.uni("d_bearing", -PI, PI);
+    dn = rad * std::cos(bearing); de = rad * std::sin(bearing);
+    dh = c.s.pick("d_up_class", {1, 1}) == 0 ? 0.0 : c.s.r("d_up_near", -50.0, 50.0);
+    c.label("geodetic-point-within-1km-of-the-centre");
+  } else {
+    dn = c.s.r("d_north", -7.0e4, 7.0e4); de = c.s.r("d_east", -7.0e4, 7.0e4); dh = c.s.r("d_up", -9000.0, 9000.0);
+  }
   g.lat = ctr.lat + dn / 6.4e6;
   if (g.lat > 89.0 * PI / 180) {g.lat = 89.0 * PI / 180;}
   if (g.lat < -89.0 * PI / 180) {g.lat = -89.0 * PI / 180;}
@@ -101,6 +109,14 @@ Geo genGeoNear(vf::Ctx & c, const Geo & ctr)
 
 Eigen::Vector3d genLocal(vf::Ctx & c)
 {
+  // anywhere in the stated range / in the working area around the anchor: horizontal distance log-uniform from 1 mm
+  // to 1 km, any bearing (where a robot actually is)
+  if (c.s.pick("p_scale", {3, 2}) == 1) {
+    double rad = c.s.rlog("p_radius", 1e-3, 1e3), bearing = c.s.uni("p_bearing", -PI, PI);
+    double up = c.s.pick("p_up_class", {1, 1}) == 0 ? 0.0 : c.s.r("p_up_near", -50.0, 50.0);
+    c.label("local-point-within-1km-of-the-anchor");
+    return Eigen::Vector3d(rad * std::sin(bearing), rad * std::cos(bearing), up);
+  }
   return Eigen::Vector3d(c.s.r("px", -7.0e4, 7.0e4), c.s.r("py", -7.0e4, 7.0e4), c.s.r("pz", -1.0e4, 1.0e4));
 }
 
